@@ -59,6 +59,12 @@ def directed(tier):
                         cfg_a=dict(segment_size_tx_initial=seg, keepalive_time=ka_a), cfg_b=dict(segment_size_tx_initial=seg, keepalive_time=ka_b),
                         sends=[dict(side='A', length=val, at=-1) for val in lens_a] + [dict(side='B', length=val, at=3) for val in lens_b]))
         idx += 1
+    # node ids outside ASCII (lengths on the wire count octets, not characters)
+    for (nid_a, nid_b) in (('dtn://n\u0153ud-\u00e9/', 'dtn://node-b/'), ('dtn://node-a/', 'dtn://kn\u00f6ten-\u00fc/x'), ('dtn://\u65e5\u672c/', 'dtn://\u00e9/')):
+        out.append(dict(id='dir-%d' % idx, seed=idx, policy='fair', capacity=None, cfg_a=dict(node_id=nid_a, segment_size_tx_initial=30),
+                        cfg_b=dict(node_id=nid_b, segment_size_tx_initial=30),
+                        sends=[dict(side='A', length=70, at=-1), dict(side='B', length=10, at=2), dict(side='A', length=1, at=9)]))
+        idx += 1
     # one octet at a time
     for seg in (1, 7, 100):
         out.append(dict(id='dir-%d' % idx, seed=idx, policy='octet', capacity=None, cfg_a=dict(segment_size_tx_initial=seg),
@@ -135,6 +141,7 @@ def execute(scn, max_steps=400000, actions=None, on_step=None, on_create=None):
         if scn.get('horizon_ns') and run.sim.world.now_ns >= scn['horizon_ns'] and not (pending or extra):
             # a session with a running keepalive never falls silent: observation ends at the horizon
             result = 'quiescent'
+            run.ended_at_horizon = True
             break
         if run.sim.step() is None:
             if pending or extra:
